@@ -340,6 +340,9 @@ PROPS["C07"] = {
     "units": [
         {"name": "C07Expansion", "pkg": CC, "test": "TestVerifC07Expansion", "kind": "rapid",
          "checks": {"quick": 2500, "thorough": 40000}, "shards": {"quick": 4, "thorough": 16}},
+        # the run mode as run() derives it from the peer commands; suite files given with --test-file
+        {"name": "C07RunMode", "pkg": CC, "test": "TestVerifC07RunMode", "kind": "enum"},
+        {"name": "C07Files", "pkg": CC, "test": "TestVerifC07Files", "kind": "enum"},
     ],
 }
 
